@@ -850,6 +850,10 @@ func (handler *Handler) QueryResponseHandler(ctx context.Context, packet *Packet
 				if fieldDataPacket.data[0] == EOFPacket {
 					break
 				}
+				// the database may end the rows with an ERR packet (query interrupted while streaming)
+				if fieldDataPacket.IsErr() {
+					break
+				}
 				newData, err := handler.processBinaryDataRow(ctx, fieldDataPacket.GetData(), fields)
 				if err != nil {
 					handler.logger.WithError(err).WithField(logging.FieldKeyEventCode, logging.EventCodeErrorProtocolProcessing).
@@ -876,6 +880,11 @@ func (handler *Handler) QueryResponseHandler(ctx context.Context, packet *Packet
 				// and must not be taken for an OK packet
 				if fieldDataPacket.IsEOF() && fieldDataPacket.data[0] != OkPacket {
 					dataLog.Debugln("Empty result set")
+					break
+				}
+				// the database may end the rows with an ERR packet (query interrupted while streaming)
+				if fieldDataPacket.IsErr() {
+					dataLog.Debugln("Error packet instead of data row")
 					break
 				}
 				// skip if no binary fields and nothing to decrypt
